@@ -47,133 +47,141 @@ func TestC07(t *testing.T) {
 	w := newWorld(t, 100, -1)
 
 	emit := func(kind string, specs []nodeSpec, prior int, fill int, opts resourcetypes.RawParams, reqKind string) {
-		names := []string{}
-		for _, s := range specs {
-			n := w.addNode(s)
-			names = append(names, n)
-			defer w.mgr.RemoveNode(w.ctx, n) //nolint
-			for i := 0; i < prior; i++ {
-				o, _ := g.allocOpts(false)
-				w.mgr.Alloc(w.ctx, n, 1+g.intn(2), resourcetypes.Resources{pluginName: o}) //nolint
+		guarded(r, func() {
+			names := []string{}
+			for _, s := range specs {
+				n := w.addNode(s)
+				names = append(names, n)
+				defer w.mgr.RemoveNode(w.ctx, n) //nolint
+				for i := 0; i < prior; i++ {
+					o, _ := g.allocOpts(false)
+					w.mgr.Alloc(w.ctx, n, 1+g.intn(2), resourcetypes.Resources{pluginName: o}) //nolint
+				}
 			}
-		}
-		// boundary states: fill a node's memory exactly (free memory 0), or over-commit it
-		fillKind := "none"
-		if fill > 0 {
-			n0 := names[g.intn(len(names))]
-			capacity, usage, _ := w.read(n0, nil)
-			free := capacity.Memory - usage.Memory
-			if free > 0 {
-				full := resourcetypes.RawParams{"memory-request": free, "memory-limit": free}
-				ws, _, err := w.mgr.Alloc(w.ctx, n0, 1, resourcetypes.Resources{pluginName: full})
-				if err == nil {
-					fillKind = "exact"
-					if fill > 1 { // memory is not validated: a duplicate commit over-commits it
-						if _, _, err := w.mgr.SetNodeResourceUsage(w.ctx, n0, nil, nil, ws, true, plugins.Incr); err == nil {
-							fillKind = "overcommitted"
+			// boundary states: fill a node's memory exactly (free memory 0), or over-commit it
+			fillKind := "none"
+			if fill > 0 {
+				n0 := names[g.intn(len(names))]
+				capacity, usage, _ := w.read(n0, nil)
+				free := capacity.Memory - usage.Memory
+				if free > 0 {
+					full := resourcetypes.RawParams{"memory-request": free, "memory-limit": free}
+					ws, _, err := w.mgr.Alloc(w.ctx, n0, 1, resourcetypes.Resources{pluginName: full})
+					if err == nil {
+						fillKind = "exact"
+						if fill > 1 { // memory is not validated: a duplicate commit over-commits it
+							if _, _, err := w.mgr.SetNodeResourceUsage(w.ctx, n0, nil, nil, ws, true, plugins.Incr); err == nil {
+								fillKind = "overcommitted"
+							}
 						}
 					}
 				}
 			}
-		}
-		if opts == nil { // boundary-aware request, relative to the first node
-			capacity, usage, _ := w.read(names[0], nil)
-			cores := float64(len(capacity.CPUMap))
-			free := capacity.Memory - usage.Memory
-			cpu := []float64{cores, cores + 0.5, cores + 1, cores - 0.5, cores + 0.000000001, 0}[g.intn(6)]
-			mem := []int64{0, free, free + 1, free / 2, free/2 + 1, free / 3, 1}[g.intn(7)]
-			if mem < 0 {
-				mem = 0
-			}
-			if g.chance(0.25) {
-				opts, reqKind = resourcetypes.RawParams{"cpu-bind": true, "cpu-request": cpu, "cpu-limit": cpu, "memory-request": mem, "memory-limit": mem}, "bound"
-			} else {
-				opts, reqKind = resourcetypes.RawParams{"cpu-request": cpu, "cpu-limit": cpu, "memory-request": mem, "memory-limit": mem}, "memory"
-				if mem == 0 {
-					reqKind = "unlimited"
+			if opts == nil { // boundary-aware request, relative to the first node
+				capacity, usage, _ := w.read(names[0], nil)
+				cores := float64(len(capacity.CPUMap))
+				free := capacity.Memory - usage.Memory
+				cpu := []float64{cores, cores + 0.5, cores + 1, cores - 0.5, cores + 0.000000001, 0}[g.intn(6)]
+				mem := []int64{0, free, free + 1, free / 2, free/2 + 1, free / 3, 1}[g.intn(7)]
+				if mem < 0 {
+					mem = 0
 				}
-			}
-			reqKind += "-boundary"
-		}
-		r.Count("fill=" + fillKind)
-		req := resourcetypes.Resources{pluginName: opts}
-		res, total, err := w.mgr.GetNodesDeployCapacity(w.ctx, names, req)
-		if err != nil {
-			return // invalid request: not a case of this stream
-		}
-		nodeTerms := []string{}
-		nodeDesc := []any{}
-		anyOffered, anyUnlimited := false, false
-		for i, n := range names {
-			capacity, usage, _ := w.read(n, nil)
-			info := fmt.Sprintf("(mkNI %s %s)", coqNR(capacity), coqNR(usage))
-			obs := "None"
-			c := 0
-			if v, ok := res[n]; ok {
-				obs = vh.Some(coqFNdc(v))
-				c = v.Capacity
-				anyOffered = true
-			}
-			// probes
-			counts := []int{}
-			if c == math.MaxInt64 {
-				counts = []int{1, 7}
-				anyUnlimited = true
-			} else {
-				for _, k := range []int{c - 1, c, c + 1, 1} {
-					if k >= 1 && k <= 400 {
-						counts = append(counts, k)
+				if g.chance(0.25) {
+					opts, reqKind = resourcetypes.RawParams{"cpu-bind": true, "cpu-request": cpu, "cpu-limit": cpu, "memory-request": mem, "memory-limit": mem}, "bound"
+				} else {
+					opts, reqKind = resourcetypes.RawParams{"cpu-request": cpu, "cpu-limit": cpu, "memory-request": mem, "memory-limit": mem}, "memory"
+					if mem == 0 {
+						reqKind = "unlimited"
 					}
 				}
+				reqKind += "-boundary"
 			}
-			probes := []string{}
-			probeDesc := []any{}
-			for _, k := range counts {
-				ws, _, err := w.mgr.Alloc(w.ctx, n, k, req)
-				if err == nil {
-					if rerr := w.mgr.RollbackAlloc(w.ctx, n, ws); rerr != nil {
-						t.Fatalf("rollback: %v", rerr)
+			r.Count("fill=" + fillKind)
+			req := resourcetypes.Resources{pluginName: opts}
+			res, total, err := w.mgr.GetNodesDeployCapacity(w.ctx, names, req)
+			if err != nil {
+				checkInfra(err)
+				return // invalid request: not a case of this stream
+			}
+			nodeTerms := []string{}
+			nodeDesc := []any{}
+			anyOffered, anyUnlimited := false, false
+			for i, n := range names {
+				capacity, usage, _ := w.read(n, nil)
+				info := fmt.Sprintf("(mkNI %s %s)", coqNR(capacity), coqNR(usage))
+				obs := "None"
+				c := 0
+				if v, ok := res[n]; ok {
+					obs = vh.Some(coqFNdc(v))
+					c = v.Capacity
+					anyOffered = true
+				}
+				// probes
+				counts := []int{}
+				if c == math.MaxInt64 {
+					counts = []int{1, 7}
+					anyUnlimited = true
+				} else {
+					for _, k := range []int{c - 1, c, c + 1, 1} {
+						if k >= 1 && k <= 400 {
+							counts = append(counts, k)
+						}
 					}
 				}
-				probes = append(probes, vh.Pair(vh.Z(int64(k)), vh.Bool(err == nil)))
-				probeDesc = append(probeDesc, map[string]any{"count": k, "accepted": err == nil})
-			}
-			// memory-only: really commit k and read the capacity again
-			after := []string{}
-			if !strings.HasPrefix(reqKind, "bound") && c >= 1 {
-				k := 1 + g.intn(3)
-				if k > c {
-					k = c
+				probes := []string{}
+				probeDesc := []any{}
+				for _, k := range counts {
+					ws, _, err := w.mgr.Alloc(w.ctx, n, k, req)
+					checkInfra(err)
+					if err == nil {
+						if rerr := w.mgr.RollbackAlloc(w.ctx, n, ws); rerr != nil {
+							checkInfra(rerr)
+							t.Fatalf("rollback: %v", rerr)
+						}
+					}
+					probes = append(probes, vh.Pair(vh.Z(int64(k)), vh.Bool(err == nil)))
+					probeDesc = append(probeDesc, map[string]any{"count": k, "accepted": err == nil})
 				}
-				ws, _, err := w.mgr.Alloc(w.ctx, n, k, req)
-				if err == nil {
-					res2, _, err2 := w.mgr.GetNodesDeployCapacity(w.ctx, []string{n}, req)
-					if err2 != nil {
-						t.Fatalf("capacity after commit: %v", err2)
+				// memory-only: really commit k and read the capacity again
+				after := []string{}
+				if !strings.HasPrefix(reqKind, "bound") && c >= 1 {
+					k := 1 + g.intn(3)
+					if k > c {
+						k = c
 					}
-					c2 := 0
-					if v, ok := res2[n]; ok {
-						c2 = v.Capacity
-					}
-					after = append(after, vh.Pair(vh.Z(int64(k)), vh.Z(int64(c2))))
-					if rerr := w.mgr.RollbackAlloc(w.ctx, n, ws); rerr != nil {
-						t.Fatalf("rollback: %v", rerr)
+					ws, _, err := w.mgr.Alloc(w.ctx, n, k, req)
+					checkInfra(err)
+					if err == nil {
+						res2, _, err2 := w.mgr.GetNodesDeployCapacity(w.ctx, []string{n}, req)
+						if err2 != nil {
+							checkInfra(err2)
+							t.Fatalf("capacity after commit: %v", err2)
+						}
+						c2 := 0
+						if v, ok := res2[n]; ok {
+							c2 = v.Capacity
+						}
+						after = append(after, vh.Pair(vh.Z(int64(k)), vh.Z(int64(c2))))
+						if rerr := w.mgr.RollbackAlloc(w.ctx, n, ws); rerr != nil {
+							checkInfra(rerr)
+							t.Fatalf("rollback: %v", rerr)
+						}
 					}
 				}
+				nodeTerms = append(nodeTerms, fmt.Sprintf("(mkCapNode %s %s %s %s %s)", str(n), info, obs, vh.List(probes), vh.List(after)))
+				nodeDesc = append(nodeDesc, map[string]any{"node": specs[i], "capacity": capacity, "usage": usage, "reported": res[n], "probes": probeDesc})
 			}
-			nodeTerms = append(nodeTerms, fmt.Sprintf("(mkCapNode %s %s %s %s %s)", str(n), info, obs, vh.List(probes), vh.List(after)))
-			nodeDesc = append(nodeDesc, map[string]any{"node": specs[i], "capacity": capacity, "usage": usage, "reported": res[n], "probes": probeDesc})
-		}
-		term := fmt.Sprintf("(mkCapCase %s %s %s %s %s)", vh.Z(100), vh.Z(-1), coqReq(parseReq(opts)), vh.List(nodeTerms), vh.Z(int64(total)))
-		r.Count("kind=" + kind)
-		r.Count("request=" + reqKind)
-		r.Count(fmt.Sprintf("nodes=%d", len(names)))
-		r.Count(fmt.Sprintf("offered=%v", anyOffered))
-		if anyUnlimited {
-			r.Count("unlimited")
-		}
-		r.Add(term, map[string]any{"request": opts, "nodes": nodeDesc, "total": total},
-			map[string]any{"kind": kind, "request": reqKind, "nodes": len(names)}, anyOffered)
+			term := fmt.Sprintf("(mkCapCase %s %s %s %s %s)", vh.Z(100), vh.Z(-1), coqReq(parseReq(opts)), vh.List(nodeTerms), vh.Z(int64(total)))
+			r.Count("kind=" + kind)
+			r.Count("request=" + reqKind)
+			r.Count(fmt.Sprintf("nodes=%d", len(names)))
+			r.Count(fmt.Sprintf("offered=%v", anyOffered))
+			if anyUnlimited {
+				r.Count("unlimited")
+			}
+			r.Add(term, map[string]any{"request": opts, "nodes": nodeDesc, "total": total},
+				map[string]any{"kind": kind, "request": reqKind, "nodes": len(names)}, anyOffered)
+		})
 	}
 
 	plain := nodeSpec{cores: 4, share: 100, memory: 4000, describe: "plain"}
@@ -195,7 +203,7 @@ func TestC07(t *testing.T) {
 	emit("corpus", []nodeSpec{plain, small}, 1, 2, resourcetypes.RawParams{"cpu-request": 0.5, "cpu-limit": 0.5}, "unlimited")
 	emit("corpus", []nodeSpec{plain}, 0, 1, resourcetypes.RawParams{"memory-request": int64(1), "memory-limit": int64(1)}, "memory")
 
-	n := r.N(110, 4000)
+	n := r.N(110, 1500)
 	for i := 0; i < n; i++ {
 		specs := []nodeSpec{}
 		for k := 1 + g.intn(3); k > 0; k-- {
